@@ -304,6 +304,79 @@ def binding_selftest(wd, trace):
         del ls[idx[0]]
         return True
 
+    # the same for the model replay (MTrace.tla): each corrupted field must be reported as drift
+    def mrun(name, mutate):
+        import copy
+        ls = copy.deepcopy(lines)
+        if not mutate(ls):
+            out["model_" + name] = "not applicable to this trace"
+            return
+        path = os.path.join(wd, f"selftest_model_{name}.ndjson")
+        with open(path, "w") as f:
+            for x in ls:
+                f.write(json.dumps(x) + "\n")
+        m = mtrace(path, wd)
+        out["model_" + name] = "rejected" if (m["drift"] or m.get("error")) else "ACCEPTED (binding broken)"
+
+    def first(ls, pred):
+        for x in ls:
+            if x.get("k") == "op" and x.get("res") == "ok" and pred(x):
+                return x
+        return None
+
+    def m_flag(ls):
+        x = first(ls, lambda e: e.get("op") == "update" and e.get("msk", {}).get("rights"))
+        if x:
+            x["msk"]["rights"][-1]["ch"][0]["a"] = not x["msk"]["rights"][-1]["ch"][0]["a"]
+        return bool(x)
+
+    def m_attr_id(ls):
+        x = first(ls, lambda e: e.get("op") == "add_attr" and e.get("msk", {}).get("st"))
+        if x:
+            for d in x["msk"]["st"]:
+                if d["attrs"]:
+                    d["attrs"][0]["id"] += 7
+                    return True
+        return False
+
+    def m_chain(ls):
+        x = first(ls, lambda e: e.get("op") == "rekey" and any(len(r["ch"]) > 1 for r in e.get("msk", {}).get("rights", [])))
+        if x:
+            for r in x["msk"]["rights"]:
+                if len(r["ch"]) > 1:
+                    r["ch"].pop()
+                    return True
+        return False
+
+    def m_secret(ls):
+        # the user key is said to hold another right's secret
+        x = first(ls, lambda e: e.get("op") == "keygen" and len(e.get("uskv", {}).get("ch", [])) > 1)
+        if x:
+            a, b = x["uskv"]["ch"][0]["c"][0], x["uskv"]["ch"][1]["c"][0]
+            a["s"], b["s"] = b["s"], a["s"]
+        return bool(x)
+
+    def m_mpk(ls):
+        x = first(ls, lambda e: e.get("op") in ("update", "rekey") and len(e.get("mpkv", {}).get("keys", [])) > 1)
+        if x:
+            x["mpkv"]["keys"].pop()
+        return bool(x)
+
+    def m_open(ls):
+        for x in ls:
+            for row in x.get("opens", []):
+                if row["r"] == "none":
+                    row["r"] = "same"
+                    return True
+        return False
+
+    mrun("activation_flag_flipped", m_flag)
+    mrun("attribute_identifier_changed", m_attr_id)
+    mrun("chain_shortened", m_chain)
+    mrun("user_secrets_swapped", m_secret)
+    mrun("published_right_removed", m_mpk)
+    mrun("decapsulation_verdict_flipped", m_open)
+    mrun("call_result_flipped", flip_result)
     run("decapsulation_verdict_flipped", flip_row)
     run("call_result_flipped", flip_result)
     run("update_event_removed", drop_update)
